@@ -161,7 +161,9 @@ def _read_segment_objects(vc):
                 vc.assume(Not(q == other))            # unique paths within one object list (valid encoding)
             paths.append(q)
             prev_objs.append(mk_segobj(vc, q, "prev%d" % i))
-        prev_index = Tok("prev-index")
+        # the previous segment's path index: a real dictionary when an index is being kept (so that a segment
+        # wrongly reusing it is seen to map paths to the wrong positions), an opaque token otherwise
+        prev_index = dict((o.path, i) for i, o in enumerate(prev_objs)) if use_cache else Tok("prev-index")
         prev_seg = vc.new("tdms_segment.TdmsSegment", ordered_objects=list(prev_objs), object_index=prev_index,
                           position=0, toc_mask=14, num_chunks=0)
     else:
@@ -317,8 +319,13 @@ def _read_segment_objects(vc):
     if cache is not None:
         ix = seg.object_index
         vc.ensure("index/one-entry-per-object", len(ix) == len(got))
+        def position(d, key):
+            try:
+                return vc.interp.getitem(d, key)
+            except ProgExc:
+                return -1                       # absent: the obligation fails, the harness does not crash
         for i, o in enumerate(got):
-            vc.ensure("index/position-of-object[%d]" % i, vc.interp.getitem(ix, o.path) == i)
+            vc.ensure("index/position-of-object[%d]" % i, position(ix, o.path) == i)
     else:
         vc.ensure("index/not-built-when-not-required", seg.object_index is None)
     frame_ok()
